@@ -17,7 +17,22 @@
    key, assumed collision-free). *)
 From Coq Require Import List Arith Bool.
 Import ListNotations.
-From NV Require Import EC.NodeSeq.
+
+(* Verbatim copy of EC.NodeSeq.node_seq (internal/ec NodeSequenceForPart, C22);
+   Place/PolicerProofs.v proves [part_seq = node_seq] by reflexivity and uses the
+   C22 lemmas through it.  (The copy keeps this model file free of the proof
+   libraries EC.NodeSeq loads, so that case evaluation starts fast.) *)
+Fixpoint part_stride (fuel i t n : nat) : list nat :=
+  match fuel with
+  | O => []
+  | S f => if Nat.ltb i n then i :: part_stride f (i + t) t n else []
+  end.
+
+Definition part_seq (p t n : nat) : list nat :=
+  match t with
+  | O => []
+  | _ => flat_map (fun shift => part_stride n ((p + shift) mod t) t n) (seq 0 t)
+  end.
 
 Definition node := nat.
 
@@ -241,7 +256,7 @@ Fixpoint ec_loop (e : env) (nodes : list node) (idxs : list nat)
   end.
 
 Definition process_ec_part_by_rule (e : env) (total part : nat) (nodes : list node) : result :=
-  match ec_loop e nodes (node_seq part total (length nodes)) [] false [] with
+  match ec_loop e nodes (part_seq part total (length nodes)) [] false [] with
   | EcReturn true heads => mkR heads [] [] [] [MRedundant] false
   | EcReturn false heads => mkR heads [] [] [] [] false
   | EcDone cands maint heads =>
